@@ -103,6 +103,23 @@ CLAIMED = {
          'the attempted proof of advance is parked in specs/wip) and a chunk list with a ghost prefix-sum table in the byte-level jobs. The FastCGI framing job runs without dfcc (loop contracts only; pre/postcondition assumed/asserted by the harness) and with the kissat back end; '
          'each call is proved for an arbitrary state, the induction over a sequence of writes is a pen-and-paper step. Header bytes are required to come from the header_/full_header_ members the code uses (a refactoring that sends identical bytes from other storage needs EXPECT_PTR updated).',
     design='4 (C03)', technique='cbmc loop contracts + code contracts (dfcc) on extracted C; abstract stream-piece model of const_buffer, position-observing output with send-time reads, ghost prefix-sum tables, division-free ghost decomposition of lengths'),
+ 'C07': dict(
+    text='Slice: the glue code of mem_cache<Setup> (src/cache_storage.cpp) over abstract containers. fetch: a hit is never an expired entry and a miss is never a live one; a hit returns exactly the value, deadline, generation and trigger list of the node '
+         'found under the key and makes it the most recently used entry; nothing else changes. store: an entry already stored under the key is deleted first; the new node carries the value, a generation no earlier store had (the counter strictly increases) '
+         'or the caller\'s, its deadline is registered, and the key itself plus every listed trigger are attached to it. remove deletes the node under the key and no other. rise deletes every entry on the trigger\'s list exactly once, in order, and nothing else. '
+         'delete_node takes the node out of ALL four structures (LRU position, deadline entry, every trigger link it owns, key map) and the counters follow. Representation invariant size = |primary| = |lru| = |timeout|, triggers_count = number of links, kept by every function.',
+    note=TRUST + 'NOT covered: the containers themselves (private/hash_map.h, std::list, std::multimap: iterators are opaque handles, every operation is a recorder with ghost cardinalities), hence the history-level statement '
+         '(a fetch returns the value of the most recent store unless invalidated) which is a composition of these per-call contracts with container semantics; cache_interface trigger recorders; locks are dropped (C09 n/a); bad_alloc paths are cut. '
+         'add_trigger and nl_clear are contract stubs. Deadline equal to now may count either way.',
+    design='4 (C07/C08)', technique='cbmc code contracts (dfcc) + loop contracts on extracted C; abstract containers as recorders with ghost cardinalities; representation invariant'),
+ 'C08': dict(
+    text='Slice: the limit/eviction glue of mem_cache<Setup>. check_limits: afterwards the cache is empty or strictly below its limit (limit 0 = unlimited), exactly size_before - size_after nodes were deleted, and EVERY victim was the one the policy prescribes: '
+         'the entry with the smallest deadline if that deadline has passed, otherwise the least recently used one (checked as the precondition of delete_node at each call, against a ghost oracle fixed at the start of every iteration whether or not the code looks at it). '
+         'store: with a limit of n entries the cache never holds more than n after a store; the new entry goes to the FRONT of the LRU list (fetch moves a hit to the front as well, job mc_fetch). delete_node releases the node from all four structures; '
+         'the reported key and trigger counts equal the container cardinalities (representation invariant kept by every function).',
+    note=TRUST + 'NOT covered: that the back of std::list is the least recently used entry is list semantics (front insertion on store/fetch and back eviction are under contract); the buddy/shmem allocator and "memory of removed entries is released" for the process-shared cache; '
+         'not_enough_memory()/size_limit() are arbitrary (when memory pressure was reported the size bound is not claimed); statistics over histories. Observation: store() compares the ENTRY COUNT `size` with Setup::size_limit() (bytes/20) - the per-item size guard is ineffective.',
+    design='4 (C07/C08)', technique='cbmc code contracts (dfcc) + loop contracts; policy oracle as ghost candidate + callee precondition; chunked solving'),
  'C10': dict(
     text='Slice: the wire format, the key spreading and the per-call L1 handshake. Client tcp_cache::store builds exactly key ++ value ++ (trigger ++ NUL)* with the three length fields and size = their sum, deadline unchanged; '
          'server session::store accepts a message only if the three lengths add up to the payload size (in 64 bit - a genuine defect, the 32-bit sum wrapped, was repaired) and hands the cache exactly message[0,key_len), '
@@ -138,8 +155,6 @@ CLAIMED = {
 }
 
 NOT_APPLICABLE = {
- 'C08': 'not built: limit/LRU/eviction order is a history property over the templated mem_cache (see C07); the C-like slice (buddy allocator bit arithmetic) is designed but no contract unit exists yet.',
- 'C07': 'mem_cache<Setup> is class-template/STL-iterator code (hash_map, std::list, std::multimap with stored iterators) that cbmc\'s C++ front end cannot parse and that no token-level extraction to C preserves; the property is a statement over operation histories, not over one call.',
  'C09': 'concurrency / linearizability over thread schedules: cbmc code contracts are sequential; no contract within reach expresses interleavings of the templated cache code and booster mutexes.',
  'C17': 'exactly-once delivery under thread/event-loop schedules (io_service, reactor, thread_pool): a schedule property over C++ callback code; sequential contracts cannot express it.',
 }
